@@ -54,6 +54,16 @@ def gen_knots(rng, order, extra, style, scale=1.0, offset=0.0):
         for i in range(n):
             ks.append(float(a))
             a += rng.rint(1, 3)
+    elif style == "far":
+        # knots far from the origin relative to their spacing (|t| / spacing = 2^12 .. 2^44: seconds since an epoch, large
+        # coordinates): spans that single precision cannot resolve around x although the double recurrence can
+        e = rng.choice([12, 20, 24, 26, 30, 36, 44])
+        step = scale * (0.5 + rng.unit())
+        base = (1.0 if rng.chance(0.5) else -1.0) * step * (2.0 ** e) * (1.0 + rng.unit())
+        a = base
+        for i in range(n):
+            ks.append(a)
+            a += step * (1.0 if rng.chance(0.7) else rng.choice([0.0, 0.25, 3.0]))
     elif style in ("multi", "clamped"):
         # knots of multiplicity exactly order or order+1 (a kink / a jump of the spline: the basis function starting there
         # vanishes at the knot but its one-sided slope does not); "clamped": the end knots repeated order+1 times
@@ -164,7 +174,7 @@ def gen_table(rng, ndim=None, max_coefs=60000, pattern=None, knot_style=None, co
                 orders = orders[:ndim]
     knots = []
     for o, e in zip(orders, extras):
-        style = knot_style or rng.choice(["uniform", "irregular", "irregular", "repeated", "integer", "multi", "clamped"])
+        style = knot_style or rng.choice(["uniform", "irregular", "irregular", "repeated", "integer", "multi", "clamped", "far"])
         scale = 10.0 ** rng.rint(scale_range[0], scale_range[1])
         offset = (rng.unit() * 20 - 10) * scale
         knots.append(gen_knots(rng, o, e, style, scale, offset))
